@@ -12,6 +12,7 @@ import Relic.Driver.C16
 import Relic.Driver.C10
 import Relic.Driver.C13
 import Relic.Driver.C19
+import Relic.Driver.C17
 open Relic
 
 def dispatch (line : String) : String :=
@@ -29,6 +30,7 @@ def dispatch (line : String) : String :=
   | "C10" :: rest => Relic.Driver.C10.handle rest
   | "C13" :: rest => Relic.Driver.C13.handle rest
   | "C19" :: rest => Relic.Driver.C19.handle rest
+  | "C17" :: rest => Relic.Driver.C17.handle rest
   | _ => "bad-op"
 
 partial def loop (h : IO.FS.Stream) (out : IO.FS.Stream) : IO Unit := do
